@@ -51,6 +51,9 @@ def run (op : String) (t : List String) : String :=
   -- `Total` says a decompressor never panics; the implementation line is what the real libraries did
   | "crt", [_, h] => "ok " ++ hx (unhx h)
   | "dcp", [_, _] => "safe"
+  -- compressors / decompressors are functions of their input (`Compressor` in Client/Codecs.lean): what was decoded
+  -- before on the same thread has no bearing on the result
+  | "cseq", [_, _, h] => "ok " ++ hx (unhx h)
   | _, _ => "bad-op"
 
 end Driver.Codec
